@@ -120,7 +120,7 @@ PROPS = {
             "remove: impl Fn(&K)->bool is carried as an abstract closure by the Policy proof; the closure production code passes in -- TinyLFUInner::remove_closure -- IS under contract (its body gets a closure contract through a textual signature splice; rule R18 drops the statement gated by the off-by-default feature `tracing_resource`): it answers true only when the map had no entry or the LOCKED entry held a value the listener called unpinned and exactly that entry was removed under the same lock, false only when the locked value was called pinned; an entry may be removed only after the listener's 'not pinned' for the value the handle holds (protocol precondition of the scc entry stand-in). scc::HashMap itself (entry_sync gives an exclusive handle) is an interface stand-in with event predicates",
             "K::clone returns an equal key (axiom_key_clone)",
             "Sketch and the hasher are opaque for the Policy proof (any frequency estimate is safe); sketch.rs itself is verified for index/overflow safety under `global size_of usize == 8`",
-            "BloomFilter::clear and CountMinSketch::reset use iter_mut (no usable Verus model): contract trusted in Verus, checked by Kani on one word",
+            "BloomFilter::clear and CountMinSketch::reset (`for word in &mut ..`: rule R16, &mut form, vstd IterMut model) are under contract with functional postconditions: every word zero / every word halved nibble-wise (lemma_halved_nibbles, bit-vector); Kani re-establishes the word arithmetic on the compiled code",
             "Policy::new (f64 arithmetic) is not under contract: the invariant's capacity relations are a precondition of the proof, checked on the real constructor by the bounded run policy_new_capacities (hook)",
             "dispatcher (tiny_lfu.rs process_write / process_message): proved that every message is delivered to its handler with its own key whatever the storage map answers (struct stand-in TinyLFUInner: storage is opaque with arbitrary query results; owner_answers is the DEFINED relation proved of remove_closure); process_policy_message (the whole maintenance pass: pop loop, drained read hits, Poll-mode trim) keeps the policy invariant and parks only keys the owner refused to give up, for any contents of the (opaque, concurrently filled) buffers -- its termination is not verified (other threads keep pushing); try_maintenance and the buffers themselves are not under contract; ReadBuffer::drain is a stand-in returning a Vec instead of `impl Iterator`",
             "the maintenance pass as a whole forgets only keys the owner gave up UNDER THE ENTRY LOCK (owner_answers, proved of remove_closure) or removed itself (Removed message): an eviction path that checks the pin and removes in two steps (read_sync + remove_sync stand-ins establish no such event) fails this clause",
